@@ -91,6 +91,8 @@ def run(ctx):
             for ct in ([1.0, 5.0] if q else [1.0, 2.0, 5.0]):
                 if ka + 2 * interval < ct:
                     confs.append(dict(interval=interval, srv_ka=ka, conn_timeout=ct))
+    # strongly asymmetric keep-alive intervals (the server speaks every 2 s, the client every 0.1 s): each side keeps ITS cadence whatever it measures of the other
+    confs.append(dict(interval=1 / 60, srv_ka=2.0, conn_timeout=5.0))
     # idle links stay up; cut at every tick of one keep-alive period
     for cf in confs:
         tps = int(round(1 / cf["interval"]))
